@@ -123,6 +123,7 @@ fn main() {
         depth_cap: None,
         heavy_depth_limit: None,
         owning_by_shape: false,
+        distinct_roots: false,
     });
     let mine = r.states;
     let t1 = t0.elapsed().as_secs_f64();
